@@ -364,6 +364,7 @@ class WSStream:
 
     async def _send_rejection(self, message: WebsocketResponseBodyEvent) -> None:
         body_suppressed = suppress_body("GET", self.response["status"])
+        body = bytes(message.get("body", b""))
         if self.state == ASGIWebsocketState.HANDSHAKE:
             headers = build_and_validate_headers(self.response["headers"])
             await self.send(
@@ -375,7 +376,7 @@ class WSStream:
             )
             self.state = ASGIWebsocketState.RESPONSE
         if not body_suppressed:
-            await self.send(Body(stream_id=self.stream_id, data=bytes(message.get("body", b""))))
+            await self.send(Body(stream_id=self.stream_id, data=body))
         if not message.get("more_body", False):
             self.state = ASGIWebsocketState.HTTPCLOSED
             await self.send(EndBody(stream_id=self.stream_id))
